@@ -14,10 +14,11 @@ package corerad
 // VM) while answers are due.  Every solicitation received before the stall is still answered exactly once.
 
 import (
+	"errors"
 	"fmt"
 	"io"
-	"net/netip"
 	"net"
+	"net/netip"
 	"os"
 	"os/exec"
 	"runtime"
@@ -340,4 +341,82 @@ func TestVerifC05Redial(t *testing.T) {
 	}
 	out.Emit(verifh.Case{ID: "redial-with-queue", Input: map[string]any{"kind": "redial-with-queue", "attempts": attempts, "Min": 3e9},
 		Tags: []string{"stream:redial-with-queue"}, Observed: "ok", ImplViolation: viol})
+}
+
+// TestVerifC10Initial (virtual clock): the policy of C10 applied to the FIRST transmission of a connection, the initial
+// RA sent before any other activity starts: a non-permission system call error (the link went down again the moment it
+// came up: ENETDOWN, EINVAL while the address is being removed, ENOBUFS) is a recoverable cause -- the task is
+// re-established on a new connection and goes on; a permission error or any other error ends it with a reported error.
+func TestVerifC10Initial(t *testing.T) {
+	out := verifh.Open()
+	defer out.Close()
+	type tc struct {
+		name        string
+		err         error
+		recoverable bool
+	}
+	sys := func(op string, e syscall.Errno) error {
+		return &net.OpError{Op: "write", Net: "ip6:ipv6-icmp", Err: os.NewSyscallError(op, e)}
+	}
+	for k, c := range []tc{
+		{"ENETDOWN", sys("sendmsg", syscall.ENETDOWN), true},
+		{"EINVAL", sys("sendmsg", syscall.EINVAL), true},
+		{"ENOBUFS", os.NewSyscallError("sendmsg", syscall.ENOBUFS), true},
+		{"EPERM", sys("sendmsg", syscall.EPERM), false},
+		{"EACCES", os.NewSyscallError("sendmsg", syscall.EACCES), false},
+		{"other", errors.New("verif: opaque transmit failure"), false},
+	} {
+		id := fmt.Sprintf("c10-initial-%d-%s", k, c.name)
+		if !out.Wants(id) {
+			continue
+		}
+		var viol string
+		var dials, goodWrites int
+		var runErr error
+		returned := false
+		synctest.Test(t, func(t *testing.T) {
+			cfg := config.Interface{Name: "v0", Advertise: true, MinInterval: 200 * time.Second, MaxInterval: 600 * time.Second,
+				HopLimit: 64, DefaultLifetime: 1800 * time.Second, Plugins: []plugin.Plugin{&plugin.LLA{}}}
+			v := newVAdvertiser(cfg, func() bool { return false })
+			c0 := v.cur()
+			c0.onWrite = func(w *vWrite) error {
+				if v.cur() == c0 {
+					return c.err // the initial RA of the first connection cannot be sent
+				}
+				return nil
+			}
+			cancel, done := v.run()
+			time.Sleep(10 * time.Second)
+			synctest.Wait()
+			select {
+			case runErr = <-done:
+				returned = true
+			default:
+			}
+			v.mu.Lock()
+			dials = len(v.conns)
+			v.mu.Unlock()
+			if cur := v.cur(); cur != c0 {
+				for _, w := range cur.snapshot() {
+					if w.Err == nil {
+						goodWrites++
+					}
+				}
+			}
+			cancel()
+			if !returned {
+				<-done
+			}
+		})
+		switch {
+		case c.recoverable && returned:
+			viol = fmt.Sprintf("the initial RA of a connection failed with %v (a non-permission system call error): the task ended with %v instead of being re-established", c.err, runErr)
+		case c.recoverable && (dials < 2 || goodWrites < 1):
+			viol = fmt.Sprintf("the initial RA failed with %v: %d dials, %d RAs on the new connection within 10 s, want a re-dial and its initial RA", c.err, dials, goodWrites)
+		case !c.recoverable && (!returned || runErr == nil):
+			viol = fmt.Sprintf("the initial RA failed with %v (not recoverable): returned=%v error=%v, want the task to end with a reported error", c.err, returned, runErr)
+		}
+		out.Emit(verifh.Case{ID: id, Input: map[string]any{"kind": "initial-transmit-failure", "error": c.name}, Observed: map[string]any{"dials": dials, "returned": returned, "error": fmt.Sprint(runErr)},
+			Tags: []string{"stream:initial-transmit-failure", fmt.Sprintf("recoverable:%v", c.recoverable)}, ImplViolation: viol})
+	}
 }
